@@ -3,6 +3,7 @@
 From Coq Require Import List ZArith NArith Bool Arith.
 Import ListNotations.
 From V Require Import Model.Rewrite Proofs.RewriteProofs.
+From V Require Import Model.Imports Proofs.ImportsProofs.
 
 Theorem C03_outside_preserved :
   forall (t : text) (l : list repl) (t' : text),
@@ -109,6 +110,28 @@ Theorem C03_new_code_nil :
   forall t : text, new_code t [] = Some t.
 Proof. exact new_code_nil. Qed.
 
+(* the inserted import line keeps the module valid: no `from __future__` import ends up behind an ordinary statement ... *)
+Theorem C03_ensure_import_wf :
+  forall body : list stmt, wf_module body = true -> wf_module (ensure_import body) = true.
+Proof. exact ensure_import_wf. Qed.
+
+(* ... the docstring stays the first statement ... *)
+Theorem C03_docstring_stays_first :
+  forall r : list stmt, hd_error (ensure_import (SDoc :: r)) = Some SDoc.
+Proof. exact docstring_stays_first. Qed.
+
+(* ... only imports (and the docstring) stand in front of it, and nothing else is touched *)
+Theorem C03_before_insertion_only_imports :
+  forall (body : list stmt) (i : nat) (s : stmt), i < insert_index body -> nth_error body i = Some s -> is_import s = true \/ i = 0 /\ s = SDoc.
+Proof. exact before_insertion_only_imports. Qed.
+
+
+Theorem C03_ensure_import_only_inserts :
+  forall body : list stmt,
+  firstn (insert_index body) (ensure_import body) = firstn (insert_index body) body /\
+  skipn (S (insert_index body)) (ensure_import body) = skipn (insert_index body) body.
+Proof. exact ensure_import_only_inserts. Qed.
+
 Print Assumptions C03_outside_preserved.
 Print Assumptions C03_outside_preserved_explicit.
 Print Assumptions C03_outside_not_preserved_without_validity.
@@ -124,3 +147,7 @@ Print Assumptions C03_sort_repls_sorted.
 Print Assumptions C03_new_code_none_iff.
 Print Assumptions C03_check_false_witness.
 Print Assumptions C03_new_code_nil.
+Print Assumptions C03_ensure_import_wf.
+Print Assumptions C03_docstring_stays_first.
+Print Assumptions C03_before_insertion_only_imports.
+Print Assumptions C03_ensure_import_only_inserts.
